@@ -3,7 +3,10 @@ package parser
 // C03: the parser builds the tree the source spells out.
 
 import (
+	"math"
 	"reflect"
+	"strconv"
+	"strings"
 
 	"github.com/mattn/anko/ast"
 	zz "github.com/mattn/anko/zzverif"
@@ -217,6 +220,58 @@ func ZZ_C03_float_and_malformed() {
 	} else {
 		_, err := ParseSrc(k.src)
 		zz.Assert(err != nil, "C03.malformed-number-rejected/"+k.src)
+	}
+}
+
+// ZZ_C03_float_roundtrip: a float literal denotes exactly the float64 nearest to
+// what is written.  The engine cannot encode decimal-to-binary rounding of a
+// symbolic numeral, so the obligation is decided on a structured concrete pool
+// instead: 1536 float64 values (12 binades from 2^-10 to 2^63, 128 mantissa
+// patterns each: the binade's ends, single bits, long carries, an arithmetic
+// progression), each written in the three spellings Go's own formatter gives -
+// shortest plain decimal (15 to 17 significant digits), shortest exponent
+// form, and 17 significant digits - and read back through the real scanner,
+// grammar action and number conversion.  Reference: strconv on the same text.
+func ZZ_C03_float_roundtrip() {
+	exps := []uint64{1013, 1019, 1022, 1023, 1024, 1030, 1042, 1060, 1075, 1076, 1080, 1086}
+	e := exps[zz.Choose(len(exps))]
+	m := zz.Choose(128)
+	var mant uint64
+	switch {
+	case m == 0:
+		mant = 0
+	case m == 1:
+		mant = 1<<52 - 1
+	case m < 54:
+		mant = 1 << uint(m-2)
+	case m < 80:
+		mant = (1<<52 - 1) ^ (1 << uint(m-54)) // long runs of ones
+	default:
+		mant = (uint64(m) * 0x9E3779B97F4A7C15) & (1<<52 - 1) // spread
+	}
+	f := math.Float64frombits(e<<52 | mant)
+	neg := zz.Choose(2) == 1
+	if neg {
+		f = -f
+	}
+	form := zz.Choose(3)
+	var text string
+	switch form {
+	case 0:
+		text = strconv.FormatFloat(f, 'f', -1, 64)
+		if !strings.Contains(text, ".") {
+			text += ".0"
+		}
+	case 1:
+		text = strconv.FormatFloat(f, 'e', -1, 64)
+	case 2:
+		text = strconv.FormatFloat(f, 'e', 16, 64)
+	}
+	rv, ok := zzParseLiteral(text)
+	id := []string{"shortest-decimal", "shortest-exponent", "17-digits"}[form]
+	zz.Assertf(ok && rv.IsValid() && rv.Kind() == reflect.Float64, "C03.float-literal/roundtrip/parses-as-float/"+id, text)
+	if ok && rv.IsValid() && rv.Kind() == reflect.Float64 {
+		zz.Assertf(math.Float64bits(rv.Float()) == math.Float64bits(f), "C03.float-literal/roundtrip/denotes-the-nearest-float64/"+id, text)
 	}
 }
 
